@@ -389,6 +389,12 @@ func (p *Prog) term(e ast.Expr) *Term {
 		case token.GEQ:
 			op = ">="
 		}
+		if x.Op == token.EQL || x.Op == token.NEQ {
+			// v == T{a, b} / v != T{a, b} on struct values: the field-wise conjunction / disjunction
+			if t := p.structCompare(x); t != nil {
+				return t
+			}
+		}
 		return normTerm(&Term{Op: op, Args: []*Term{p.Term(x.X), p.Term(x.Y)}, Pos: x.OpPos})
 	case *ast.IndexExpr:
 		// generic instantiation f[T] is rendered as f
@@ -709,4 +715,62 @@ func (p *Prog) fitsAsDifference(st FieldStore, from, to types.Type) bool {
 		}
 	}
 	return false
+}
+
+// deepNorm re-normalises a term bottom-up (after substitutions below the root, which leave the
+// operand order of commutative operators stale).
+func deepNorm(t *Term) *Term {
+	if t == nil || len(t.Args) == 0 {
+		return t
+	}
+	args := make([]*Term, len(t.Args))
+	for i, a := range t.Args {
+		args[i] = deepNorm(a)
+	}
+	return normTerm(&Term{Op: t.Op, Obj: t.Obj, Int: t.Int, Str: t.Str, Args: args, Pos: t.Pos})
+}
+
+// structCompare expands the comparison of a struct value with a composite literal of its type into field
+// comparisons: v == T{a, b} is v.f1 == a && v.f2 == b, v != T{a, b} the negation. nil when x is not of that form.
+func (p *Prog) structCompare(x *ast.BinaryExpr) *Term {
+	val, litE := ast.Unparen(x.X), ast.Unparen(x.Y)
+	lit, ok := litE.(*ast.CompositeLit)
+	if !ok {
+		val, litE = litE, val
+		lit, ok = litE.(*ast.CompositeLit)
+		if !ok {
+			return nil
+		}
+	}
+	tv := p.Info.TypeOf(val)
+	if tv == nil {
+		return nil
+	}
+	st, ok := tv.Underlying().(*types.Struct)
+	if !ok || len(lit.Elts) != st.NumFields() {
+		return nil
+	}
+	base := p.Term(val)
+	var parts []*Term
+	for i, el := range lit.Elts {
+		fv := st.Field(i)
+		e := el
+		if kv, isKV := el.(*ast.KeyValueExpr); isKV {
+			id, isId := kv.Key.(*ast.Ident)
+			if !isId {
+				return nil
+			}
+			kf, _ := p.Info.Uses[id].(*types.Var)
+			if kf == nil {
+				return nil
+			}
+			fv, e = kf, kv.Value
+		}
+		parts = append(parts, normTerm(mk("==", tFld(base, fv), p.Term(e))))
+	}
+	t := normTerm(mk("&&", parts...))
+	if x.Op == token.NEQ {
+		return Negate(t)
+	}
+	return t
 }
